@@ -234,3 +234,7 @@ mod tests {
         assert_eq!(buf.parsed_as_slice(), [0x01, 65, 0, 0xbe, 0xba, 0xfe, 0xca]);
     }
 }
+
+#[cfg(any(kani, verif_replay))]
+#[path = "/verif/kani/parsebuf.rs"]
+pub(crate) mod verif_kani_parsebuf;
